@@ -75,7 +75,7 @@ func ckeys(w int) []string {
 }
 
 func cconfig() Config {
-	return Config{SkipListMaxLevel: 2, SkipListP: 0.5, MemtableByteThreshold: vf.Param("MEMTHR", 40), ImmutableBuffer: vf.Param("IB", 1),
+	return Config{SkipListMaxLevel: 1, SkipListP: 0.5, MemtableByteThreshold: vf.Param("MEMTHR", 40), ImmutableBuffer: vf.Param("IB", 1),
 		DataBlockByteThreshold: vf.Param("BLKTHR", 1), L0TargetNum: vf.Param("L0T", 1), LevelRatio: vf.Param("RATIO", 1)}
 }
 
